@@ -420,7 +420,7 @@ fn run_typed<C: SimColor>(sc: &Scenario, opts: &Opts) -> RunOut {
                     );
                     break;
                 }
-                if c.pulled < n {
+                if c.pulled < n && c.executed_by == Method::FillContiguous {
                     out.violation = Some(mk(
                         "stream_shortfall",
                         format!(
@@ -487,14 +487,14 @@ impl Property for C09 {
         "operations_checked"
     }
     fn rule(&self) -> &'static str {
-        "one seeded scenario = ImageRaw of one of 7 raw widths x 2 data orders, size 0..=20 x 0..=12 biased to widths that are not a multiple of the pixels per byte, seeded bytes (random / all ones / row-tagged); operations: ImageRaw::new with exact and wrong lengths, pixel(p) on the box plus margin plus extreme points, Image::new / with_center draw of the image or of a sub-image chain (inside / overlapping / outside / zero-sized, nested twice) onto a device with seeded box, capability set and discipline; oracle: independent decoder, exact pixel map, stream length == area for every fill_contiguous. distinct = 64-bit hash of the decoded scenario; non-trivial = at least one device pixel expected to be set"
+        "one seeded scenario = ImageRaw of one of 7 raw widths x 2 data orders, size 0..=20 x 0..=12 biased to widths that are not a multiple of the pixels per byte (1 run in 64: a big image with rows longer than 255 pixels/bytes or more than 65535 pixels), seeded bytes (random / all ones / row-tagged); operations: ImageRaw::new with exact and wrong lengths, pixel(p) on the box plus margin plus extreme points, Image::new / with_center draw of the image or of a sub-image chain (inside / overlapping / outside / zero-sized, nested twice) onto a device with seeded box, capability set and discipline; oracle: independent decoder, exact pixel map, stream length == area for every fill_contiguous. distinct = 64-bit hash of the decoded scenario; non-trivial = at least one device pixel expected to be set"
     }
     fn assumptions(&self) -> Vec<&'static str> {
         vec![
             "the reference decoder encodes my reading of the documented layout (rows padded to whole bytes; LittleEndianMsb0: little-endian bytes, MSB-first sub-byte pixels; BigEndianLsb0: big-endian bytes, LSB-first sub-byte pixels)",
             "Rectangle::with_center rounding: top_left = center - floor((size-1)/2)",
             "SimDisplay models conforming drivers; surplus colours can only be observed by ZipColoursFirst (one) and DrainBounded (up to 160) consumers",
-            "image sizes <= 20x12, offsets within +-64",
+            "image sizes <= 20x12 in most runs; 1 in 64 runs uses a big image (255..300 pixels wide or tall, or 260x253 = 65780 pixels); offsets within +-64",
         ]
     }
 
@@ -517,7 +517,15 @@ impl Property for C09 {
         };
         let (caps, disc) = gen_caps_disc(src);
         let large = src.draw(5) < 3;
-        let bbox = if large {
+        let bbox = if img.w > 60 || img.h > 50 {
+            // a big image: a box around both possible placements (top-left / centre at `at`)
+            let (w, h) = (img.w as i32, img.h as i32);
+            if large {
+                [img.at[0] - w / 2 - 8, img.at[1] - h / 2 - 8, w + w / 2 + 16, h + h / 2 + 16]
+            } else {
+                [img.at[0] - 3, img.at[1] - 3, w + 1, h.min(40)]
+            }
+        } else if large {
             [-40, -40, 110, 100]
         } else {
             // a small box around the place the image is drawn at
